@@ -558,6 +558,7 @@ func ruleResolveOwner(c *Ctx) {
 		})
 	}
 	c.atLeast("writes to the variable-type table", n, 5)
+	resolvePasses(c)
 	var names []string
 	for k := range owners {
 		names = append(names, k)
